@@ -1095,9 +1095,11 @@ impl<'c, 'a> Exec<'c, 'a> {
                 let at = panic_at.map(|k| k as usize % (cnt + 1));
                 let gap_at = if at.is_none() { gap.map(|g| g as usize % (cnt + 1)) } else { None };
                 let sut = self.sut.as_mut().unwrap();
+                let taken = std::cell::Cell::new(0usize);
                 let r = catch(|| {
                     let mut src = PanicSource { items: &items, pos: 0, panic_at: at, hint: *hint, gap: gap_at };
                     sut.extend(&mut src);
+                    taken.set(src.pos.min(items.len()));
                 });
                 self.ctx.changed();
                 match (r, at) {
@@ -1107,6 +1109,17 @@ impl<'c, 'a> Exec<'c, 'a> {
                         self.model.extend(&mut src);
                         if gap_at.is_some() {
                             self.ctx.probe("source-that-is-not-fused");
+                            // what is left in a source that is handed over with `by_ref()` is the caller's: a plain
+                            // vector takes nothing after the first `None` (on a fused source polling again takes nothing
+                            // either, which is why this is judged here only)
+                            if taken.get() != src.pos.min(items.len()) {
+                                self.ctx.fail(
+                                    "extend-took-items-after-the-source-said-none",
+                                    &format!("{}:extend", d.name),
+                                    format!("extend took {} of {cnt} items from a source that answered None in front of item {:?}; a vector takes {}", taken.get(), gap_at, src.pos.min(items.len())),
+                                );
+                                return None;
+                            }
                         }
                         ev!(self.ctx, "{n} extend {cnt}");
                         Some("ok")
@@ -1169,9 +1182,12 @@ impl<'c, 'a> Exec<'c, 'a> {
                 let items: Vec<Item> = (0..cnt).map(|_| self.fresh()).collect();
                 let at = panic_at.map(|k| k as usize % (cnt + 1));
                 let gap_at = if at.is_none() { gap.map(|g| g as usize % (cnt + 1)) } else { None };
+                let taken = std::cell::Cell::new(0usize);
                 let r = catch(|| {
                     let mut src = PanicSource { items: &items, pos: 0, panic_at: at, hint: *hint, gap: gap_at };
-                    (d.collect)(&mut src)
+                    let out = (d.collect)(&mut src);
+                    taken.set(src.pos.min(items.len()));
+                    out
                 });
                 match (r, at) {
                     (Caught::Ok(s), None) => {
@@ -1181,6 +1197,14 @@ impl<'c, 'a> Exec<'c, 'a> {
                         self.model = Vec::from_iter(&mut src);
                         if gap_at.is_some() {
                             self.ctx.probe("source-that-is-not-fused");
+                            if taken.get() != src.pos.min(items.len()) {
+                                self.ctx.fail(
+                                    "collect-took-items-after-the-source-said-none",
+                                    &format!("{}:collect", d.name),
+                                    format!("collect took {} of {cnt} items from a source that answered None in front of item {:?}; a vector takes {}", taken.get(), gap_at, src.pos.min(items.len())),
+                                );
+                                return None;
+                            }
                         }
                         self.ctx.changed();
                         ev!(self.ctx, "{n} collect {cnt}");
